@@ -203,7 +203,9 @@ impl Context {
                 break;
             }
             for (i, set) in self.regex_sets.iter().enumerate() {
-                for idx in set.matches(s).into_iter() {
+                // (matched against the text as it is now: a substitution may bring in the name
+                // of a macro that was defined later than the one it comes from)
+                for idx in set.matches(&res).into_iter() {
                     let x = self.regexes[i][idx]
                         .0
                         .replace_all(&res, &self.regexes[i][idx].1);
